@@ -1387,6 +1387,21 @@ _vbi_cache_foreach_page		(vbi_cache *		ca,
 
 		subno += dir;
 
+		if (ps->n_subpages > 0) {
+			/* The start position may lie outside the range
+			   of cached subpages on the near side, e.g.
+			   VBI_ANY_SUBNO - 1 going backwards: continue
+			   with the first subpage in walking direction
+			   instead of skipping the page. */
+			if (dir < 0) {
+				if (subno > ps->subno_max)
+					subno = ps->subno_max;
+			} else {
+				if (subno < ps->subno_min)
+					subno = ps->subno_min;
+			}
+		}
+
 		while (0 == ps->n_subpages
 		       || subno < ps->subno_min
 		       || subno > ps->subno_max) {
